@@ -1,6 +1,44 @@
-From Coq Require Import List ZArith NArith QArith Qcanon Bool Lia.
+(* C11 — proofs about Walkers/Simplify.v.  The development is split into
+     Simplify_base   unfolding equations, free variables of the list constructors
+     Simplify_fv     no new free variable
+     Simplify_sem    coincidence, instances as typed assignments, strict q_fold, refinement congruence, substitution
+     Simplify_wf     the side conditions qfree / wfx
+     Simplify_wfp    their preservation by substitution and by the simplifier
+     Simplify_sound  env_ok, soundness of every non-quantifier node function
+     Simplify_quant  soundness of walk_exists / walk_forall, the main induction
+     Simplify_nf     normal form, idempotence
+   This file states the results about the top-level [simplify]. *)
+From Coq Require Import List ZArith NArith QArith Qcanon Bool.
 Import ListNotations.
-Require Import UPV.Core.Expr UPV.Core.Eval UPV.Proofs.Eval_lemmas UPV.Walkers.Simplify.
+Require Import UPV.Core.Expr UPV.Core.Eval UPV.Walkers.Simplify.
+Require Export UPV.Proofs.Simplify_base UPV.Proofs.Simplify_fv UPV.Proofs.Simplify_sem UPV.Proofs.Simplify_wf
+  UPV.Proofs.Simplify_wfp UPV.Proofs.Simplify_sound UPV.Proofs.Simplify_quant UPV.Proofs.Simplify_nf.
 
-Lemma walk_not_involutive_on_not c : walk_not (ENot (ENot c)) = ENot c.
-Proof. reflexivity. Qed.
+Lemma simplify_some G e e' : simplify G e = Some e' -> e' = simp G (size e) e.
+Proof. unfold simplify. destruct (simp_ok G (size e) e); [|discriminate]. intros H; inversion H; reflexivity. Qed.
+
+Theorem simplify_sound G tau QT S e e' I v :
+  cfg_consts G -> wfx tau QT S e = true -> env_ok G tau QT I ->
+  simplify G e = Some e' -> eval false e I = Some v -> eval false e' I = Some v.
+Proof.
+  intros HG W E H. rewrite (simplify_some _ _ _ H). apply (simp_sound G tau QT HG (size e) e S I W E).
+Qed.
+
+Theorem simplify_no_new_free_vars G e e' :
+  cfg_consts G -> simplify G e = Some e' -> incl (free_vars e') (free_vars e).
+Proof. intros HG H. rewrite (simplify_some _ _ _ H). apply simp_fv. exact HG. Qed.
+
+Theorem simplify_idempotent G e e' :
+  cfg_consts G -> simplify G e = Some e' -> simplify G e' = Some e'.
+Proof. intros HG. apply simplify_idem. exact HG. Qed.
+
+(* the side conditions are preserved, so the theorems compose over repeated simplification *)
+Theorem simplify_preserves_wfx G tau QT S e e' :
+  cfg_consts G -> wfx tau QT S e = true -> simplify G e = Some e' -> wfx tau QT S e' = true.
+Proof. intros HG W H. rewrite (simplify_some _ _ _ H). apply simp_wf; assumption. Qed.
+
+(* for every fuel: soundness and free variables do not depend on the re-simplification bound *)
+Theorem simp_sound_any_fuel G tau QT S n e I v :
+  cfg_consts G -> wfx tau QT S e = true -> env_ok G tau QT I ->
+  eval false e I = Some v -> eval false (simp G n e) I = Some v.
+Proof. intros HG W E. apply (simp_sound G tau QT HG n e S I W E). Qed.
